@@ -222,6 +222,10 @@ Section Concrete.
     c_traverse_df_btt c ftrue F n = Ok (filter (fun x => N.eqb x n || F x) (a_df_btt t n)).
   Proof. intros Hn. unfold c_traverse_df_btt, h_traverse_df_btt. walk traverse_df_btt_spec. exact fu_ge. Qed.
 
+  Theorem c_traverse_df_btt_ambient D F n : In n (ids t) ->
+    c_traverse_df_btt c D F n = Ok (filter (fun x => N.eqb x n || F x) (a_post_vis t D n)).
+  Proof. intros Hn. unfold c_traverse_df_btt, h_traverse_df_btt. walk traverse_df_btt_ambient_spec. exact fu_ge. Qed.
+
   (* ---- the sorter: the offered tag nodes, each once, in document order ---- *)
   Theorem c_sort_abs l : (forall n, In n l -> In n (ids t) /\ h_is_tag h n = true) -> c_sort c ftrue l = Ok (a_doc_sort t l).
   Proof. intros H. unfold c_sort, h_sort. walk sort_spec. Qed.
